@@ -1,6 +1,7 @@
 """C30 — commands: pool automaton + real scheduler runs with the command."""
 from vp.sched.stream import SchedStream
 from vp.props.c01 import TRUSTED, ASSUMES  # noqa
+from vp.sched import corpora
 
 _WITNESS = {  # remove 1/a while its job is running: its id stays in the hold set (known finding)
     "icp": 1, "fcp": 1, "tasks": ["a", "b"],
@@ -10,7 +11,7 @@ _WITNESS = {  # remove 1/a while its job is running: its id stays in the hold se
     "seed": 3, "fail_rate": 0, "custom_rate": 1.0, "disorder": 0,
     "ops": [{"tick": 2, "cmd": "remove_tasks", "args": {"tasks": ["1/a"], "flow": ["all"]}}]}
 STREAMS = [SchedStream('C30', name='sched-remove', feat={'remove': True, 'set': True, 'hold': True}, n_quick=32, n_thorough=700,
-                       corpus=[_WITNESS])]
+                       corpus=[_WITNESS] + corpora.c30_corpus())]
 META = {
     "level_text": "Coq theorems: ECmdRemove erases exactly the removed instance's completed outputs (except recorded absolute outputs), submissions and history, leaves hold state and pool ids unchanged; frame: every pooled task keeps status, outputs, flows, force-satisfied prerequisites, held flag, submit number, and loses exactly the naturally satisfied prerequisites that came from the removed instance; no submission of it stays on record (it can run again). Tie: real runs with cylc remove at generated iterations (pooled, active and finished instances) accepted by the automaton, whose pool must equal the real pool after the command. Oracle: instance gone, children's natural prerequisites unset, later incarnation starts from scratch, no stale hold (known finding). Removal from a subset of flows is not generated (partial).",
     "level_note": TRUSTED[0] + " Commands use --flow=all only; new/none flows are not generated.",
